@@ -11,7 +11,7 @@ import random
 import numpy as np
 
 from sim import calsim
-from sim.compsim import gen_losses, grid_points, make_space, on_grid, out_of_bounds, pin_third_party, quiet, restart
+from sim.compsim import gen_losses, grid_points, make_space, off_declared_grid, on_grid, out_of_bounds, pin_third_party, quiet, restart
 from sim.core import Check, Result, jdigest
 from sim.seams import Seams
 
@@ -107,6 +107,12 @@ def run_compsim(scn, res: Result, check_fn=None):
                 i, j, v = oob
                 res.add("out-of-bounds", cls, f"{cls} call #{n_samples} (op {oi}) proposed {v!r} for parameter {j}, outside the declared "
                                               f"bounds [{space_spec['bounds'][0][j]!r}, {space_spec['bounds'][1][j]!r}] (precision {space_spec['precision'][j]!r})")
+                break
+            offd = off_declared_grid(space_spec, out)
+            if offd is not None:
+                i, j, v = offd
+                res.add("off-declared-grid", cls, f"{cls} call #{n_samples} (op {oi}) proposed {v!r} for parameter {j}: not lower + k*precision for any k "
+                                                  f"(lower {space_spec['bounds'][0][j]!r}, precision {space_spec['precision'][j]!r}, upper {space_spec['bounds'][1][j]!r})")
                 break
             bad = on_grid(space, out)
             if bad is not None:
